@@ -10,7 +10,39 @@ pub fn rds(path: &str) -> String {
 		return String::new();
 	}
 	let (abs, s) = segs(path);
-	render(abs, &norm::e(abs, &s))
+	let e = norm::e(abs, &s);
+	if !abs && e.first().map(|x| x.is_empty()).unwrap_or(false) {
+		// degenerate (see `degenerate`): a relative list starting with an empty
+		// segment cannot be written without a shield
+		return format!("./{}", render(false, &e));
+	}
+	render(abs, &e)
+}
+
+/// A path that does not start with '/' whose dot-segment removal leaves an
+/// empty FIRST segment (e.g. `a/..//b`). RFC 3986 5.2.4 taken literally turns
+/// it into an absolute path (`/b`), the Errata-4547 reading keeps it relative
+/// (`.//b`); the property does not settle which, so both are accepted.
+pub fn degenerate(path: &str) -> bool {
+	if path.is_empty() || path.starts_with('/') {
+		return false;
+	}
+	let (_, s) = segs(path);
+	norm::e(false, &s).first().map(|x| x.is_empty()).unwrap_or(false)
+}
+
+/// The path to which dot-segment removal is applied for this pair (None in the
+/// empty-path branch, where the base path is copied verbatim).
+pub fn path_before_rds(base: &Parts, r: &Parts) -> Option<String> {
+	if r.scheme.is_some() || r.authority.is_some() {
+		Some(r.path.clone())
+	} else if r.path.is_empty() {
+		None
+	} else if r.path.starts_with('/') {
+		Some(r.path.clone())
+	} else {
+		Some(merge(base, &r.path))
+	}
 }
 
 pub fn merge(base: &Parts, rpath: &str) -> String {
